@@ -361,7 +361,12 @@ struct LoadReplayFile {
     seed: u64,
     class: String,
     detail: String,
-    case: c17::LoadCase,
+    #[serde(default)]
+    case: Option<c17::LoadCase>,
+    #[serde(default)]
+    boot_history: Option<c17::BootHistory>,
+    #[serde(default)]
+    template_history: Option<c17::TemplateHistory>,
 }
 
 fn run_load_cases(refs: &c17::Refs, cases: &[c17::LoadCase], tag: &str, budget_s: u64, leaf_path: &str, pb_path: &str) -> Vec<(usize, c17::LoadEval)> {
@@ -375,13 +380,15 @@ struct LoadAcc {
     states: HashSet<u64>,
     nontrivial: HashSet<u64>,
     first: Option<(c17::LoadCase, String, String)>,
+    first_history: Option<(Option<c17::BootHistory>, Option<c17::TemplateHistory>, String, String)>,
+    histories: u64,
     samples: Vec<serde_json::Value>,
     abnormal: u64,
 }
 
 impl LoadAcc {
     fn new() -> Self {
-        LoadAcc { evals: 0, probes: Counters::default(), fired: Counters::default(), states: HashSet::new(), nontrivial: HashSet::new(), first: None, samples: vec![], abnormal: 0 }
+        LoadAcc { evals: 0, probes: Counters::default(), fired: Counters::default(), states: HashSet::new(), nontrivial: HashSet::new(), first: None, first_history: None, histories: 0, samples: vec![], abnormal: 0 }
     }
     fn add(&mut self, case: &c17::LoadCase, ev: &c17::LoadEval, prefix_ok: &dyn Fn(&str) -> bool) {
         self.evals += 1;
@@ -397,6 +404,28 @@ impl LoadAcc {
         if self.first.is_none() {
             if let Some((c, d)) = ev.findings.iter().find(|(c, _)| prefix_ok(c)) {
                 self.first = Some((case.clone(), c.clone(), d.clone()));
+            }
+        }
+    }
+}
+
+impl LoadAcc {
+    fn add_history(&mut self, bh: Option<&c17::BootHistory>, th: Option<&c17::TemplateHistory>, ev: &c17::HistoryEval, prefix_ok: &dyn Fn(&str) -> bool) {
+        self.evals += 1;
+        self.histories += 1;
+        self.probes.merge(&ev.probes);
+        if ev.died {
+            self.abnormal += 1;
+        }
+        let key = format!("{}{}", bh.map(|h| serde_json::to_string(h).unwrap()).unwrap_or_default(), th.map(|h| serde_json::to_string(h).unwrap()).unwrap_or_default());
+        self.nontrivial.insert(qpz_core::rng::hash_str(&key));
+        self.states.insert(qpz_core::rng::hash_str(&format!("{:?}", ev.results)));
+        if let Some((c, d)) = ev.findings.iter().find(|(c, _)| c.starts_with("harness:")) {
+            harness_error(&format!("{c}: {d}"));
+        }
+        if self.first.is_none() && self.first_history.is_none() {
+            if let Some((c, d)) = ev.findings.iter().find(|(c, _)| prefix_ok(c)) {
+                self.first_history = Some((bh.cloned(), th.cloned(), c.clone(), d.clone()));
             }
         }
     }
@@ -449,14 +478,63 @@ fn finish_load_check(property: &str, tier: Tier, seed: u64, t0: u64, acc: LoadAc
             }
         }
         let case = if fails(&best) { best } else { case };
-        let rf = LoadReplayFile { property: property.into(), sim: "store".into(), seed, class: class.clone(), detail: detail.clone(), case };
+        let rf = LoadReplayFile { property: property.into(), sim: "store".into(), seed, class: class.clone(), detail: detail.clone(), case: Some(case), boot_history: None, template_history: None };
         replay_path = format!("{}/{property}-{}.json", qpz_core::replay_dir(), qpz_core::rng::hash_str(&serde_json::to_string(&rf.case).unwrap()));
         std::fs::write(&replay_path, serde_json::to_string_pretty(&rf).unwrap()).unwrap();
         println!("violation class={class}: {detail}");
         println!("VIOLATION property={property} replay={replay_path}");
         exit = EXIT_VIOLATION;
     }
+    if exit == EXIT_OK {
+        if let Some((bh, th, class, detail)) = acc.first_history.clone() {
+            violations = 1;
+            // minimise: drop steps while the same class persists
+            let mut sb = Sandbox::new("min");
+            let (mut bh, mut th) = (bh, th);
+            loop {
+                let mut improved = false;
+                if let Some(h) = &bh {
+                    for i in 0..h.steps.len() {
+                        if h.steps.len() <= 1 {
+                            break;
+                        }
+                        let mut c = h.clone();
+                        c.steps.remove(i);
+                        if c17::run_boot_history(&mut sb, refs, &c).findings.iter().any(|(k, _)| *k == class) {
+                            bh = Some(c);
+                            improved = true;
+                            break;
+                        }
+                    }
+                }
+                if let Some(h) = &th {
+                    for i in 0..h.steps.len() {
+                        if h.steps.len() <= 1 {
+                            break;
+                        }
+                        let mut c = h.clone();
+                        c.steps.remove(i);
+                        if c17::run_template_history(&mut sb, refs, &c).findings.iter().any(|(k, _)| *k == class) {
+                            th = Some(c);
+                            improved = true;
+                            break;
+                        }
+                    }
+                }
+                if !improved {
+                    break;
+                }
+            }
+            let rf = LoadReplayFile { property: property.into(), sim: "store".into(), seed, class: class.clone(), detail: detail.clone(), case: None, boot_history: bh, template_history: th };
+            replay_path = format!("{}/{property}-h{}.json", qpz_core::replay_dir(), qpz_core::rng::hash_str(&serde_json::to_string(&rf).unwrap()));
+            std::fs::write(&replay_path, serde_json::to_string_pretty(&rf).unwrap()).unwrap();
+            println!("violation class={class}: {detail}");
+            println!("VIOLATION property={property} replay={replay_path}");
+            exit = EXIT_VIOLATION;
+        }
+    }
     let mut extra = extra_in;
+    extra.insert("in_process_histories".into(), json!(acc.histories));
     extra.insert("consumer_boots".into(), json!(acc.evals));
     extra.insert("runs_per_hour".into(), json!((acc.evals as f64 / wall * 3600.0).round()));
     extra.insert("faults_fired".into(), acc.fired.to_json());
@@ -499,12 +577,24 @@ fn finish_load_check(property: &str, tier: Tier, seed: u64, t0: u64, acc: LoadAc
 fn replay_load(property: &str, path: &str, refs: &c17::Refs, leaf_path: &str, pb_path: &str, prefix_ok: &dyn Fn(&str) -> bool) -> i32 {
     let rf: LoadReplayFile = serde_json::from_str(&std::fs::read_to_string(path).unwrap_or_else(|e| harness_error(&format!("cannot read {path}: {e}")))).unwrap_or_else(|e| harness_error(&format!("bad replay file: {e}")));
     let mut sb = Sandbox::new("replay");
-    let ev = c17::run_load(&mut sb, refs, &rf.case, &[("leaf_proof", json!(leaf_path)), ("inner_proof", json!(pb_path))]);
-    println!("  {} reported {} {}", rf.case.loader, ev.kind, ev.error);
-    for (c, d) in &ev.findings {
+    let findings: Vec<(String, String)> = if let Some(h) = &rf.boot_history {
+        let ev = c17::run_boot_history(&mut sb, refs, h);
+        println!("  steps reported {:?}", ev.results);
+        ev.findings
+    } else if let Some(h) = &rf.template_history {
+        let ev = c17::run_template_history(&mut sb, refs, h);
+        println!("  steps reported {:?}", ev.results);
+        ev.findings
+    } else {
+        let case = rf.case.as_ref().unwrap_or_else(|| harness_error("replay file has no case"));
+        let ev = c17::run_load(&mut sb, refs, case, &[("leaf_proof", json!(leaf_path)), ("inner_proof", json!(pb_path))]);
+        println!("  {} reported {} {}", case.loader, ev.kind, ev.error);
+        ev.findings
+    };
+    for (c, d) in &findings {
         println!("replayed: class={c} {d}");
     }
-    if ev.findings.iter().any(|(c, _)| prefix_ok(c)) {
+    if findings.iter().any(|(c, _)| prefix_ok(c)) {
         println!("VIOLATION property={property} replay={path}");
         return EXIT_VIOLATION;
     }
@@ -535,7 +625,7 @@ fn check_c17(seed: u64, tier: Tier, replay: Option<String>) -> i32 {
     let total_enum = all.len();
     let mut rng = Rng::new(mix(seed, 0x1717));
     let cases: Vec<c17::LoadCase> = if quick {
-        all.into_iter().filter(|c| c.faults.is_empty() || matches!(c.faults[0], c17::SFault::ExtraProver { .. }) || c.loader == "load_leaf_verifier" || c.loader == "load_config" || rng.chance(1, 6)).collect()
+        all.into_iter().filter(|c| c.faults.is_empty() || matches!(c.faults[0], c17::SFault::ExtraProver { .. }) || c.loader == "load_leaf_verifier" || c.loader == "load_config" || rng.chance(1, 8)).collect()
     } else {
         all
     };
@@ -556,7 +646,7 @@ fn check_c17(seed: u64, tier: Tier, replay: Option<String>) -> i32 {
     acc.samples.push(json!({"enumerated_case": cases.iter().find(|c| !c.faults.is_empty() && c.loader == "load_aggregator")}));
     println!("enumeration ({n_enum} of {total_enum}) done at {:.1}s", (qpz_core::real_now_ns() - t0) as f64 / 1e9);
     // (b) seeded exploration
-    let n_rand: u64 = if quick { 60 } else { 100_000 };
+    let n_rand: u64 = if quick { 36 } else { 100_000 };
     let budget = if quick { 0 } else { qpz_core::budget_s(600) };
     let seeds: Vec<u64> = (0..n_rand).map(|i| mix(seed, 0x1700_0000 + i)).collect();
     let rres = par_map(&seeds, "c17r", budget, |sb, s| {
@@ -570,6 +660,38 @@ fn check_c17(seed: u64, tier: Tier, replay: Option<String>) -> i32 {
     }
     if let Some((_, (case, ev))) = rres.iter().find(|(_, (c, _))| c.faults.len() >= 2) {
         acc.samples.push(json!({"seeded_case": case, "reported": ev.kind}));
+    }
+    // (c) artifact rotation inside ONE long-running process: acceptance must not depend on history
+    // enumerated two-step rotations (pin a genuine set, then boot the same loader from each mixed
+    // variant) for one ordered pair of generations in quick, all six pairs in thorough
+    let mut prng = Rng::new(mix(seed, 0x17AA));
+    let pairs: Vec<(usize, usize)> = if quick {
+        let a = prng.usize(3);
+        vec![(a, (a + 1 + prng.usize(2)) % 3)]
+    } else {
+        vec![(0, 1), (1, 0), (0, 2), (2, 0), (1, 2), (2, 1)]
+    };
+    let mut ph: Vec<c17::BootHistory> = vec![];
+    for (a, b) in &pairs {
+        ph.extend(c17::pair_histories(&refs, *a, *b, &mut prng));
+    }
+    let pres = par_map(&ph, "c17p", 0, |sb, h| c17::run_boot_history(sb, &refs, h));
+    for (i, ev) in &pres {
+        acc.add_history(Some(&ph[*i]), None, ev, &c17_class);
+    }
+    let n_hist: u64 = if quick { 4 } else { 2_000 };
+    let hseeds: Vec<u64> = (0..n_hist).map(|i| mix(seed, 0x17A0_0000 + i)).collect();
+    let hres = par_map(&hseeds, "c17h", if quick { 0 } else { qpz_core::budget_s(600) / 2 }, |sb, s| {
+        let mut r = Rng::new(*s);
+        let h = c17::random_boot_history(&refs, &mut r);
+        let ev = c17::run_boot_history(sb, &refs, &h);
+        (h, ev)
+    });
+    for (_, (h, ev)) in &hres {
+        acc.add_history(Some(h), None, ev, &c17_class);
+    }
+    if let Some((_, (h, ev))) = hres.first() {
+        acc.samples.push(json!({"rotation_history_in_one_process": h.steps, "reported": ev.results}));
     }
     let mut extra = serde_json::Map::new();
     extra.insert("enumeration_size".into(), json!(total_enum));
@@ -598,7 +720,7 @@ fn check_c16(seed: u64, tier: Tier, replay: Option<String>) -> i32 {
         let other = if gi == 1 { 0 } else { 1 };
         // quick: per entry point every valid-but-wrong proof plus a seeded third of the other
         // template faults (a different third for another VERIF_SEED); thorough: all of them
-        let mut pick = |f: &c17::SFault, rng: &mut Rng| !quick || matches!(f, c17::SFault::Special { .. }) || rng.chance(1, 3);
+        let mut pick = |f: &c17::SFault, rng: &mut Rng| !quick || matches!(f, c17::SFault::Special { .. }) || rng.chance(1, 4);
         for ep in c17::LEAF_TEMPLATE_ENTRY_POINTS {
             cases.push(c17::LoadCase { gen: gi, faults: vec![], loader: ep.to_string(), io_plan: vec![], fseed: 1 });
             for f in c17::leaf_template_faults(g.files["dummy_proof.bin"].len() as u64, &mut rng, extra_pos) {
@@ -632,6 +754,33 @@ fn check_c16(seed: u64, tier: Tier, replay: Option<String>) -> i32 {
             }
         }
         acc.add(&cases[*i], ev, &c16_class);
+    }
+    // histories inside ONE process: object constructors pinned to different verifiers, and artifact
+    // rotation; a template must be judged against the verifier of THIS call, whatever came before
+    let n_th: u64 = if quick { 6 } else { 400 };
+    let tseeds: Vec<u64> = (0..n_th).map(|i| mix(seed, 0x16A0_0000 + i)).collect();
+    let tres = par_map(&tseeds, "c16t", if quick { 0 } else { qpz_core::budget_s(900) / 4 }, |sb, s| {
+        let mut r = Rng::new(*s);
+        let h = c17::random_template_history(&mut r);
+        let ev = c17::run_template_history(sb, &refs, &h);
+        (h, ev)
+    });
+    for (_, (h, ev)) in &tres {
+        acc.add_history(None, Some(h), ev, &c16_class);
+    }
+    if let Some((_, (h, ev))) = tres.first() {
+        acc.samples.push(json!({"template_history_in_one_process": h.steps, "reported": ev.results}));
+    }
+    let n_bh: u64 = if quick { 3 } else { 600 };
+    let bseeds: Vec<u64> = (0..n_bh).map(|i| mix(seed, 0x16B0_0000 + i)).collect();
+    let bres = par_map(&bseeds, "c16b", if quick { 0 } else { qpz_core::budget_s(900) / 4 }, |sb, s| {
+        let mut r = Rng::new(*s);
+        let h = c17::random_boot_history(&refs, &mut r);
+        let ev = c17::run_boot_history(sb, &refs, &h);
+        (h, ev)
+    });
+    for (_, (h, ev)) in &bres {
+        acc.add_history(Some(h), None, ev, &c16_class);
     }
     acc.samples.push(json!({"template_fault_case": cases.iter().find(|c| matches!(c.faults.first(), Some(c17::SFault::EditPi { .. })))}));
     acc.samples.push(json!({"template_fault_case": cases.iter().find(|c| matches!(c.faults.first(), Some(c17::SFault::Special { .. })))}));
